@@ -1,7 +1,8 @@
 /-
-  Executable tables of the model (used by `rsmodel` only; no theorem evaluates them):
-  exp / log of the generator, the log-Walsh table of `eval_poly`, and the dumps that the
-  correspondence check compares with the crate's statics entry by entry.
+  Executable tables of the model: exp / log of the generator, the log-Walsh table of `eval_poly`,
+  and the dumps that the correspondence check compares with the crate's statics entry by entry.
+  Built by structural recursion so that their contents can be characterised by proof
+  (Proofs/TableSpec.lean) without evaluating 65536 entries in the kernel.
 
   Import-free (linked into `rsmodel`).
 -/
@@ -9,29 +10,32 @@ import RSVerif.Model.Engine
 
 namespace RS
 
+/-- push `e, g·e, g²·e, …` (`n` entries) -/
+def expBuild : Nat → Sym → Array Sym → Array Sym
+  | 0, _, a => a
+  | n + 1, e, a => expBuild n (gmul gen e) (a.push e)
+
 /-- `expArr[k] = g^k` for `k = 0 … 65535` (so `expArr[65535] = g^65535`). -/
-def expArr : Array Sym := Id.run do
-  let mut a : Array Sym := Array.mkEmpty 65536
-  let mut e : Sym := gone
-  for _ in [0:65536] do
-    a := a.push e
-    e := gmul gen e
-  return a
+def expArr : Array Sym := expBuild 65536 gone (Array.mkEmpty 65536)
+
+/-- scatter: for `k, k+1, …` (`n` entries) set `a[exp k] := k` -/
+def logBuild : Nat → Nat → Array Nat → Array Nat
+  | 0, _, a => a
+  | n + 1, k, a => logBuild n (k + 1) (a.setIfInBounds (expArr.getD k 0#16).toNat k)
 
 /-- `logArr[g^k] = k` for `k < 65535`, `logArr[0] = 65535` (the crate's "log of zero"). -/
-def logArr : Array Nat := Id.run do
-  let mut a : Array Nat := Array.replicate 65536 65535
-  for k in [0:65535] do
-    a := a.set! (expArr[k]!).toNat k
-  return a
+def logArr : Array Nat := logBuild 65535 0 (Array.replicate 65536 65535)
+
+/-- the table that is transformed into `LOG_WALSH`: `log` with entry 0 replaced by 0 -/
+def lgArr : Array Nat := logArr.setIfInBounds 0 0
 
 /-- `LOG_WALSH`: FWHT of `log` with entry 0 replaced by 0. -/
-def logWalshArr : Array Nat := fwht (logArr.set! 0 0) 65536
+def logWalshArr : Array Nat := fwht lgArr 65536
 
 /-- `SKEW[i]` as the crate stores it: `log (skewElem i)`, 65535 where the element is zero. -/
-def skewLog (i : Nat) : Nat := logArr[(skewElem i).toNat]!
+def skewLog (i : Nat) : Nat := logArr.getD (skewElem i).toNat 0
 
 /-- fast `g^m` through the table (exe only; equals `gexp m` for `m ≤ 65535`) -/
-def gexpFast (m : Nat) : Sym := expArr[m]!
+def gexpFast (m : Nat) : Sym := expArr.getD m 0#16
 
 end RS
